@@ -56,8 +56,12 @@ class Concat(Expr):
     @functools.cached_property
     def _meta(self):
         # ignore DataFrame without columns to avoid dtype upcasting
+        # Along the columns the frames are taken to be aligned, every input keeps
+        # its dtype. The stand-in indexes of ``meta_nonempty`` are only aligned
+        # if the index classes match (RangeIndex gets [0, 1], Index [1, 2]), so
+        # they would declare an upcast that the aligned data never sees.
         metas = [
-            meta_nonempty(df._meta)
+            meta_nonempty(df._meta) if self.axis == 0 else df._meta
             for df in self._frames
             if df.ndim < 2 or len(df._meta.columns) > 0
         ]
